@@ -409,6 +409,11 @@ func c01Step(n int) {
 	if epoch >= 1 {
 		e.s.attested[epoch-1] = map[phase0.ValidatorIndex]struct{}{marker: {}}
 	}
+	// a newer epoch in the pre-state (a round of a later epoch marked its
+	// validators before this, older, round finishes): any distance ahead
+	ahead := phase0.Epoch(vnd.U64("ahead"))
+	vnd.Assume(ahead >= 1 && ahead < 1<<20)
+	e.s.attested[epoch+ahead] = map[phase0.ValidatorIndex]struct{}{marker: {}}
 	_, err := e.s.Attest(context.Background(), d.duty)
 
 	vnd.Assert(len(e.signer.calls) <= 1, "C01.step.single-sign-call")
@@ -453,6 +458,10 @@ func c01Step(n int) {
 		_, m := prev[marker]
 		vnd.Assert(ok && m, "C01.step.previous-epoch-kept")
 	}
+	// ... nor any newer epoch
+	later, ok := e.s.attested[epoch+ahead]
+	_, m := later[marker]
+	vnd.Assert(ok && m, "C01.step.newer-epoch-marks-kept")
 	vnd.Assert(vnd.HeldLocks() == 0, "C01.step.locks-released")
 }
 
